@@ -199,48 +199,77 @@ func runC14(t *testing.T, sched simrt.Schedule, prog c14Prog) ([]Violation, RunS
 			w.settle()
 		}
 		overlap = w.rt.Probes["fault.disconnect"] + w.rt.Probes["fault.slow_consumer"] + w.rt.Probes["c14.evicted"]
-		// topics whose owner / participant deleted the account during the run
-		killed := map[string]bool{}
+		// topics whose owner / participant deleted the account during the run, and topics deleted by a
+		// {del what=topic}: a request that reaches such a topic's channels after its run loop has drained
+		// them is lost (two recorded findings, one per way of killing the topic)
+		const kAcc, kDel = "request-forwarded-to-topic-killed-by-account-deletion", "request-sent-to-topic-deleted-concurrently"
+		killed := map[string]string{}
+		for _, c := range w.Clients {
+			for _, s := range c.Sents {
+				if s.Msg != nil && s.Msg.Del != nil && s.Msg.Del.What == "topic" && s.Code >= 200 && s.Code < 300 {
+					name := w.globalName(c, s.Msg.Del.Topic)
+					if types.IsChannel(name) {
+						name = types.ChnToGrp(name)
+					}
+					// only a deletion that really stopped the topic (owner, last p2p participant) counts
+					if tr := w.Disk.Topics[name]; tr == nil || tr.State == types.StateDeleted {
+						killed[name] = kDel
+					}
+				}
+			}
+		}
 		for _, c := range w.Clients {
 			for _, s := range c.Sents {
 				if s.Msg != nil && s.Msg.Del != nil && s.Msg.Del.What == "user" && s.Code >= 200 && s.Code < 300 {
 					for g, gs := range sc.Groups {
 						if gs.Owner == c.User.Idx && g < len(w.Groups) {
-							killed[w.Groups[g]] = true
+							killed[w.Groups[g]] = kAcc
 						}
 					}
 					for _, p := range sc.P2P {
 						if p[0] == c.User.Idx || p[1] == c.User.Idx {
-							killed[w.Users[p[0]].Uid.P2PName(w.Users[p[1]].Uid)] = true
+							killed[w.Users[p[0]].Uid.P2PName(w.Users[p[1]].Uid)] = kAcc
 						}
 					}
 				}
 			}
 		}
+		reqNo := func(text string) (client, no int, ok bool) {
+			if k := strings.Index(text, "request c"); k >= 0 {
+				if _, err := fmt.Sscanf(text[k:], "request c%d.%d", &client, &no); err == nil {
+					return client, no, true
+				}
+			}
+			return 0, 0, false
+		}
 		for _, v := range c14Oracle(w, home) {
 			if strings.HasPrefix(v.Key, "unanswered sub") || strings.HasPrefix(v.Key, "unanswered leave") || strings.HasPrefix(v.Key, "unanswered del") || strings.HasPrefix(v.Key, "hang ") {
-				for name := range killed {
-					if strings.Contains(v.Text, name) || strings.Contains(v.Text, types.GrpToChn(name)) {
-						v.Key = "request-forwarded-to-topic-killed-by-account-deletion"
+				for name, key := range killed {
+					if name != "" && (strings.Contains(v.Text, name) || strings.Contains(v.Text, types.GrpToChn(name))) {
+						v.Key = key
 					}
 				}
 			}
 			out = append(out, v)
 		}
 		// a session whose {sub}/{leave} was swallowed that way never gets its in-flight slot back
-		// (capacity 1): its read loop blocks in boundedWaitGroup.Add on the next {sub}. Same finding.
+		// (capacity 1): its read loop blocks in boundedWaitGroup.Add at the next {sub}/{leave}, and nothing
+		// it sends afterwards is answered. Same finding.
 		for i := range out {
-			if out[i].Key != "request-forwarded-to-topic-killed-by-account-deletion" {
+			if out[i].Key != kAcc && out[i].Key != kDel {
 				continue
 			}
-			var ci int
-			if k := strings.Index(out[i].Text, " of client "); k >= 0 {
-				if _, err := fmt.Sscanf(out[i].Text[k:], " of client %d", &ci); err == nil {
-					pfx := fmt.Sprintf("hang client%d.MessageLoop@sessionstore.go:", ci)
-					for j := range out {
-						if strings.HasPrefix(out[j].Key, pfx) {
-							out[j].Key = "request-forwarded-to-topic-killed-by-account-deletion"
-						}
+			ci, no, ok := reqNo(out[i].Text)
+			if !ok {
+				continue
+			}
+			for j := range out {
+				if strings.HasPrefix(out[j].Key, fmt.Sprintf("hang client%d.", ci)) && strings.Contains(out[j].Key, "@sessionstore.go:") {
+					out[j].Key = out[i].Key
+				}
+				if strings.HasPrefix(out[j].Key, "unanswered ") {
+					if cj, nj, ok := reqNo(out[j].Text); ok && cj == ci && nj > no {
+						out[j].Key = out[i].Key
 					}
 				}
 			}
